@@ -136,7 +136,8 @@ func (w *world) expire(id int64) error {
 	if err := cr.UpdateConfig(c); err != nil {
 		return err
 	}
-	cfg, err := w.srv.Cloud.GetClientConfig(id)
+	// confirmed through the repository: what the SERVICE answers for this client is part of what is under test
+	cfg, err := cr.GetConfig(id)
 	if err != nil || !cfg.IsExpired() {
 		return fmt.Errorf("could not expire client %d (cfg=%v err=%v)", id, cfg, err)
 	}
@@ -634,6 +635,14 @@ func TestReplay(t *testing.T) {
 	path := vkit.Replaying()
 	if path == "" {
 		t.Skip("no VERIF_REPLAY")
+	}
+	var g WSGate
+	vkit.LoadReplay(path, &g)
+	if g.WSGate {
+		if key, detail, _ := runWSGate(t, g); key != "" {
+			vkit.Violation(t, key, detail, g)
+		}
+		return
 	}
 	var c Case
 	if _, err := vkit.LoadReplay(path, &c); err != nil {
